@@ -91,10 +91,7 @@ def run(ctx):
         ctx.exhaustive = False
     runs += extra         # seeded random data sets beyond the enumerated scope (larger, 1-3 dimensions, scaled)
     large = ce.large_runs(rng, 2 if ctx.tier == "quick" else 8)
-    traces = core.pmap(cc.record, runs, chunk=100)
-    ctx.notes["runs_refused_for_their_element_type"] = sum(1 for tr in traces if tr.get("rejected_input"))
-    traces = [tr for tr in traces if not tr.get("rejected_input")]
-    for tr in traces:
+    def each(tr):
         res_ev = [e for e in tr["events"] if e["ev"] == "result"]
         ncent = len(res_ev[0]["ctrIdx"]) if res_ev else 0
         nontriv = 2 <= ncent < len(tr["pts"])
@@ -102,6 +99,6 @@ def run(ctx):
                   str(tr["init"]), str(tr["props"]), tr["sweeps"], tr["seed"]) if nontriv else None,
                  sample={k: tr[k] for k in ("pts", "metric", "algo", "form", "dtype", "k", "cut", "init", "sweeps")} |
                         {"result": res_ev[0]} if nontriv and tr["algo"] == "hybrid" else None)
-    ce.judge(ctx, ce.validate(ctx, traces, "clustering traces"))
+    ce.record_validate_judge(ctx, runs, each, "clustering traces")
     # hundreds of frames, more than 128 clusters: the result alone is judged (Trace_ClusterLarge.tla)
     ce.judge_large(ctx, ce.validate_large(ctx, core.pmap(cc.record, large, chunk=1)))
